@@ -65,6 +65,13 @@ def cells(tier):
         if tier == "quick" and tmc == 3 and kind != "F2":
             continue
         out.append(dict(obs=f"{kind}_total", process="NC", fns=fns, nfff=nfff, nf=nf, pto=1, pto_evol=1, tmc=tmc, projectile="electron", ren_sv=False, fact_sv=False))
+    # edges of the (Z, A) domain with kernels to which only one of u / d couples (positivity restriction, CC heavy flavour)
+    for (tname, z, a), (obs, proc, projectile, pc, fns, nfff, nf) in itertools.product(
+        [("neutron", 0, 1), ({"Z": 0, "A": 3}, 0, 3), ({"Z": 2, "A": 2}, 2, 2)],
+        [("F2_total", "NC", "electron", "uW", "ZM-VFNS", 4, 4), ("F2_total", "EM", "electron", "dW", "ZM-VFNS", 4, 4), ("F2_charm", "CC", "neutrino", None, "ZM-VFNS", 4, 4),
+         ("F3_charm", "CC", "antineutrino", None, "FFNS", 3, None), ("F2_light", "NC", "positron", None, "ZM-VFNS", 4, 4)]):
+        out.append(dict(obs=obs, process=proc, fns=fns, nfff=nfff, nf=nf, pto=1, pto_evol=1, projectile=projectile, pos_charge=pc, ren_sv=False, fact_sv=False,
+                        concrete_target=(tname, z, a)))
     for xs_kind, proc, projectile in (("XSCHORUSCC", "CC", "neutrino"), ("XSNUTEVNU", "CC", "antineutrino"), ("FW", "CC", "neutrino"), ("XSHERANC", "NC", "positron"),
                                       ("XSFPFCC", "CC", "neutrino"), ("F1", "NC", "electron")):
         out.append(dict(obs=f"{xs_kind}_total", process=proc, fns="ZM-VFNS", nfff=4, nf=4, pto=1, pto_evol=1, projectile=projectile, kin_y=True, ren_sv=False, fact_sv=False))
@@ -75,7 +82,12 @@ def _check_cell(kw):
     from .. import model
 
     proj = model.project()
+    kw = dict(kw)
+    concrete = kw.pop("concrete_target", None)
     Z, Aa = A.sym("Ztarget", True), A.sym("Atarget", True)
+    if concrete is not None:
+        # edge of the domain: a concrete nucleus (Z = 0, Z = A ...): weights that rotate to exactly zero must really vanish
+        Z, Aa = A.Rat.const(concrete[1]), A.Rat.const(concrete[2])
     def no_isospin(ev, runner):
         # reference: the same run with the rotation step switched off
         ev.summaries["yadism.coefficient_functions::Combiner.apply_isospin"] = lambda ev_, *a, **k: None
@@ -84,7 +96,10 @@ def _check_cell(kw):
         op_p = O.fold_op(proj, R.Cell(target="proton", **kw), prepare=no_isospin)
         op_proton = O.fold_op(proj, R.Cell(target="proton", **kw))
         # the mapping is listed A first in half of the cells: it must be read by key
-        op_t = O.fold_op(proj, R.Cell(target={"Z": Z, "A": Aa} if kw.get("pto", 0) % 2 else {"A": Aa, "Z": Z}, **kw))
+        if concrete is not None:
+            op_t = O.fold_op(proj, R.Cell(target=concrete[0], **kw))
+        else:
+            op_t = O.fold_op(proj, R.Cell(target={"Z": Z, "A": Aa} if kw.get("pto", 0) % 2 else {"A": Aa, "Z": Z}, **kw))
     except O.FoldFailure as f:
         return ("fold", f.outcome.status, f"{f.outcome.etype} {f.outcome.msg}", f.outcome.site, f.outcome.construct)
     bad = []
@@ -116,7 +131,9 @@ def check_rotation(rep, proj, tier):
     n_entries = 0
     groups = {}
     for kw, o in zip(cs, outs):
-        label = R.Cell(**kw).label()
+        kw = dict(kw)
+        ct = kw.pop("concrete_target", None)
+        label = R.Cell(**kw).label() + (f"|target Z={ct[1]} A={ct[2]}|pos={kw.get('pos_charge')}" if ct else "")
         if o[0] == "fold":
             _, status, msg, site, construct = o
             if status == "rejected":
